@@ -8,7 +8,7 @@
    about separately constructed copies. *)
 From Coq Require Import ZArith NArith Bool List.
 From PcoreV Require Import Model.Base Model.Ty Model.Lattice Model.TyEq Proofs.LatticeBasics Proofs.LatticeRule
-  Proofs.LatticeOrder Proofs.LatticeEq.
+  Proofs.LatticeOrder Proofs.LatticeEq Proofs.LatticeTransBasics Proofs.LatticeTrans.
 Import ListNotations.
 Open Scope Z_scope.
 
@@ -66,6 +66,27 @@ Section C03.
   Theorem C03_widen_tuple : forall ts g lo hi lo' hi', size_sub lo' hi' lo hi = true -> forall b, TTuple ts g lo hi ⊒ b -> TTuple ts g lo' hi' ⊒ b.
   Proof. exact (widen_tuple rx true). Qed.
 
+  (* transitivity: if A accepts B and B accepts C then A accepts C.  Side conditions:
+       wf_ty      what the Go constructors guarantee (see the header);
+       no_unit    no Unit type (two-way assignable by definition);
+       rule_free  the by-specification rule "a Struct accepts a Hash type on key type and size alone" cannot have
+                  contributed to any of the three answers (left operand without Struct or right operand without Hash;
+                  open finding trans-through-struct-accepts-hash-rule, C03_trans_refuted_by_struct_hash_rule below);
+       sz_nonneg  the rightmost type has no Array / Hash / Tuple size with a negative maximum (such sizes parse,
+                  e.g. Array[String,-1,-1]; open finding trans-negative-collection-size, C03_trans_refuted_by_negative_size). *)
+  Theorem C03_trans : forall a b c,
+    wf_ty a = true -> wf_ty b = true -> wf_ty c = true -> no_unit a = true -> no_unit b = true -> no_unit c = true ->
+    rule_free a b = true -> rule_free b c = true -> rule_free a c = true -> sz_nonneg c = true ->
+    a ⊒ b -> b ⊒ c -> a ⊒ c.
+  Proof. exact (asg_trans_code rx). Qed.
+
+  (* the same for the relation without the by-specification rule (`asg rx false`), all types of the model *)
+  Theorem C03_trans_rule_free_relation : forall a b c,
+    wf_ty a = true -> wf_ty b = true -> wf_ty c = true -> no_unit a = true -> no_unit b = true -> no_unit c = true ->
+    sz_nonneg c = true ->
+    asg rx false a b = true -> asg rx false b c = true -> asg rx false a c = true.
+  Proof. exact (asg_trans rx). Qed.
+
   (* Any accepts everything, Variant[..A..] accepts A, Optional[A] accepts A and Undef *)
   Theorem C03_any_top : forall b, TAny ⊒ b.
   Proof. exact (asg_any rx true). Qed.
@@ -94,6 +115,8 @@ Print Assumptions C03_widen_collection.
 Print Assumptions C03_widen_array.
 Print Assumptions C03_widen_hash.
 Print Assumptions C03_widen_tuple.
+Print Assumptions C03_trans.
+Print Assumptions C03_trans_rule_free_relation.
 Print Assumptions C03_any_top.
 Print Assumptions C03_variant_member.
 Print Assumptions C03_optional_accepts.
@@ -118,3 +141,30 @@ Example C03_trans_refuted_by_struct_hash_rule :
   let h := THash TString i 1 1 in
   asg rx true sa h = true /\ asg rx true h sb = true /\ asg rx true sa sb = false.
 Proof. vm_compute. repeat split; reflexivity. Qed.
+
+(* Non-vacuity of C03_trans: a nested chain A >= B >= C that satisfies every hypothesis (Struct members, Tuple
+   slots, Variant, Optional, NotUndef, Enum/Pattern inside), and a chain that is NOT accepted backwards. *)
+Example C03_trans_nonvacuous :
+  let rx := fun p s => str_eqb p s in
+  let k := TStringVal [97%N] in let ko := TOptional (TStringVal [98%N]) in
+  let a := TStruct [([97%N], (k, TTuple [TVariant [TScalar; TUndef]; TOptional (TArray TString 0 5)] false 2 2)); ([98%N], (ko, TAny))] in
+  let b := TStruct [([97%N], (k, TTuple [TOptional TString; TArray (TPattern [[120%N]; [121%N]]) 0 3] false 2 2)); ([98%N], (ko, TNumeric))] in
+  let c := TStruct [([97%N], (k, TTuple [TNotUndef (TOptional (TEnum false [[120%N]])); TTuple [TStringVal [120%N]; TEnum false [[121%N]]] false 2 2] false 2 2))] in
+  wf_ty a = true /\ wf_ty b = true /\ wf_ty c = true /\ no_unit a = true /\ no_unit b = true /\ no_unit c = true /\
+  rule_free a b = true /\ rule_free b c = true /\ rule_free a c = true /\ sz_nonneg c = true /\
+  asg rx true a b = true /\ asg rx true b c = true /\ asg rx true a c = true /\
+  asg rx true b a = false /\ asg rx true c b = false.
+Proof. vm_compute. repeat split; reflexivity. Qed.
+
+(* The unguarded statement, kept visible, and its two refutations (model of the code = the code, both checked on
+   the implementation). *)
+Definition C03_trans_statement : Prop := forall rx a b c,
+  wf_ty a = true -> wf_ty b = true -> wf_ty c = true -> no_unit a = true -> no_unit b = true -> no_unit c = true ->
+  asg rx true a b = true -> asg rx true b c = true -> asg rx true a c = true.
+
+(* open finding trans-negative-collection-size: the "a size that admits only the empty collection makes the
+   element types irrelevant" shortcut tests max == 0, and a sub-range of [-1,0] can have max < 0:
+   Array[Integer[0,9],-1,5] >= Array[String,-1,0] >= Array[String,-1,-1], not Array[Integer[0,9],-1,5] >= Array[String,-1,-1] *)
+Lemma C03_trans_refuted_by_negative_size : ~ C03_trans_statement.
+Proof. exact (asg_trans_unguarded_refuted true). Qed.
+Print Assumptions C03_trans_refuted_by_negative_size.
